@@ -159,6 +159,13 @@ func c10Inject(r *rand.Rand, fault string, cf ConfSpec) (reloadStep, bool) {
 		n.Services[si].Keys[r.Intn(len(n.Services[si].Keys))].Cipher = "rc4-md5"
 		st.Index = si
 		st.Raw = []byte(n.YAML())
+	case "bad-cipher-in-a-service-without-listeners":
+		// a service that lists keys but no listener: its keys are still part of the file, and a key
+		// nobody can build makes the whole file unloadable
+		n := clone()
+		n.Services = append(n.Services, SvcSpec{Keys: []KeySpec{{"orphan", "rc4-md5", "x"}}})
+		st.Index = len(n.Services) - 1
+		st.Raw = []byte(n.YAML())
 	case "bad-cipher-in-legacy-key":
 		n := clone()
 		n.Legacy = append(n.Legacy, LegacyKey{KeySpec{"badlegacy", "des-cbc", "x"}, 19999})
@@ -180,7 +187,7 @@ func c10Inject(r *rand.Rand, fault string, cf ConfSpec) (reloadStep, bool) {
 var c10Cursor int
 
 var c10Order = []string{"bind-failure-tcp", "unreadable-file", "bind-failure-udp", "malformed-yaml", "bad-cipher-in-service", "bind-failure-tcp", "bad-listener-type",
-	"address-without-port", "bind-failure-udp", "address-not-ip", "duplicate-listener", "bad-cipher-in-legacy-key", "listener-type-in-upper-case"}
+	"address-without-port", "bind-failure-udp", "address-not-ip", "duplicate-listener", "bad-cipher-in-legacy-key", "listener-type-in-upper-case", "bad-cipher-in-a-service-without-listeners"}
 
 var reCreatedBy = regexp.MustCompile(`created by (\S+)`)
 
